@@ -69,7 +69,7 @@ func newStyleFor(html *HTML, sheets []sheet, presentationalHints bool,
 		for _, decl := range validation.PreprocessDeclarations(styleAttr.baseUrl, styleAttr.declaration) {
 			// name, values, importance = decl
 			precedence := declarationPrecedence("author", decl.Important)
-			we := weight{precedence: precedence, specificity: styleAttr.specificity}
+			we := weight{precedence: precedence, specificity: styleAttr.specificity, styleAttribute: styleAttr.fromStyleAttribute}
 			oldWeight := style[decl.Name].weight
 			if oldWeight.isNone() || oldWeight.Less(we) {
 				style[decl.Name] = weigthedValue{weight: we, value: decl.Value, shortand: decl.Shortand}
@@ -748,7 +748,7 @@ func findStyleAttributes(tree *utils.HTMLNode, presentationalHints bool, baseUrl
 		specificity := selector.Specificity{1, 0, 0}
 		styleAttribute := element.Get("style")
 		if styleAttribute != "" {
-			out = append(out, styleAttrSpec{specificity: specificity, styleAttr: checkStyleAttribute(element, styleAttribute)})
+			out = append(out, styleAttrSpec{specificity: specificity, styleAttr: checkStyleAttribute(element, styleAttribute), fromStyleAttribute: true})
 		}
 		if !presentationalHints {
 			continue
@@ -1082,8 +1082,10 @@ type Element interface {
 }
 
 type weight struct {
-	precedence  uint8
-	specificity selector.Specificity
+	precedence uint8
+	// declarations from a style attribute outrank any selector
+	styleAttribute bool
+	specificity    selector.Specificity
 }
 
 func (w weight) isNone() bool {
@@ -1092,7 +1094,13 @@ func (w weight) isNone() bool {
 
 // Less return `true` if w <= other
 func (w weight) Less(other weight) bool {
-	return w.precedence < other.precedence || (w.precedence == other.precedence && (w.specificity.Less(other.specificity) || w.specificity == other.specificity))
+	if w.precedence != other.precedence {
+		return w.precedence < other.precedence
+	}
+	if w.styleAttribute != other.styleAttribute {
+		return other.styleAttribute
+	}
+	return w.specificity.Less(other.specificity) || w.specificity == other.specificity
 }
 
 type weigthedValue struct {
@@ -1451,6 +1459,8 @@ type styleAttr struct {
 type styleAttrSpec struct {
 	styleAttr
 	specificity selector.Specificity
+	// true for the "style" attribute, false for presentational hints
+	fromStyleAttribute bool
 }
 
 // Compute all the computed styles of all elements in `html` document.
